@@ -209,7 +209,7 @@ def correspondence(ck, binpath, n, label="corr"):
         for k, v in r[1].items():
             stats[k] += v
         fams[str(o.get("family"))] = fams.get(str(o.get("family")), 0) + 1
-    failing = ck.coq_failing(label, terms, ["EV.C16.Model", "EV.C16.Corr"], per_shard=6, timeout=1500)
+    failing = ck.coq_failing(label, terms, ["EV.C16.Model", "EV.C16.Corr"], per_shard=12, timeout=1500)
     if failing:
         for i in failing[:5]:
             o = kept[i]
